@@ -21,7 +21,8 @@ func init() {
 			"R2 loop progress: every loop in the client is a range/counted loop over a finite value, or every cycle passes through a call that consumes a server response (client.do), or strictly shortens a string (the slice's low bound is proven >= 1); " +
 			"R3 the status gate: (*http.Client).Do is called only from client.do, whose non-2xx/unexpected statuses become errors, and error bodies are read only through io.LimitReader. " +
 			"R1b ociref.IsValidDigest answers true only when go-digest's Parse/Validate reported no error (so validated digests have an available algorithm). " +
-			"R4 the lock-order graph of ociclient is acyclic (no method takes a mutex that may already be held on the way to it).",
+			"R4 the lock-order graph of ociclient is acyclic (no method takes a mutex that may already be held on the way to it). " +
+			"R5 in the authorising transport's challenge parser, the buffer that receives the unescaped rest of a quoted string is at least len(s)-1 bytes (an unterminated string with one escape writes exactly that many).",
 		NotDecided: "the quality/wording of the returned errors is not decided.",
 		Technique:  "static analysis: panic-site inventory with a difference-bound prover and guard obligations (disjunctive path facts), natural-loop progress classification",
 	})
@@ -38,6 +39,7 @@ func runC18(c *core.Ctx) {
 	c18StatusGate(c)
 	validDigestMeansParseable(c, "C18.R1")
 	clientLocksAcyclic(c, "C18.R4")
+	unescapeBufferHoldsTheRest(c, "C18.R5")
 }
 
 func c18Discharger(c *core.Ctx, m *serverModel) Discharger {
